@@ -521,6 +521,16 @@ def run(ctx: Ctx) -> None:
     ctx.note(f"abstract cases explored: {len(explore_orders(ctx))}")
     rule_round(ctx)
     rule_validation(ctx)
+    # the guarantees are stated against the bar that arrived: _process_order hands exactly that bar to the order's matching code
+    from .. import norm as N
+    po_ = ctx.func("basana.backtesting.order_mgr.OrderManager._process_order")
+    gbu = [c for c in A.func_calls(po_, shallow=False) if (A.call_name(c) or "") == "order.get_balance_updates"]
+    ctx.floor("C04.1", "get_balance_updates call sites in _process_order", len(gbu), 1)
+    for c in gbu:
+        a0 = N.canon(N.expand(po_, c.args[0])) if c.args else ""
+        ctx.check(a0 == f"{po_.params[2]}.bar", "C04.1", "orders are matched against the bar that arrived, as it arrived", po_, c, a0,
+                  f"get_balance_updates is given '{a0[:60]}', not the event's own bar: prices that were rounded, shifted or rebuilt can reach (or pass) a "
+                  "stop or limit the real bar never touched, and fills can be priced outside the real bar's range", key_text="matched against the event's bar")
     # 'filled by the first bar that reaches it' needs every open order of the bar's pair to be processed on every bar: the open-order
     # index must not lose orders (shared with C05.5, reported here as C04.5)
     from . import c05
